@@ -41,25 +41,41 @@ cjet_ssize_t socket_read(socket_type s, void *buf, size_t n) { (void)s; (void)bu
 #define timerfd_settime verif_timerfd_settime
 #include "linux/timer_linux.c"
 
-static struct eventloop_epoll EPOLL;
 static struct peer O, A;
 extern cJSON *model_parse_result;
 static int dispatch(struct peer *p, cJSON *req) { model_parse_result = req; return parse_message("x", 1, p); }
 
 /* the owner's connection: its readiness event delivers the owner's reply to the dispatcher */
 static struct io_event OWNER_EV; static cJSON *pending_reply; static int owner_reads;
+#ifndef OWN_EVENT
+#define OWN_EVENT 0
+#endif
 #ifndef BATCH_KIND
 #define BATCH_KIND 0          /* 0: the owner replies; 1: the owner's connection ends; 2: the caller's connection ends */
 #endif
+static struct eventloop_epoll EPOLL;
 static enum eventloop_return owner_read(struct io_event *ev)
 {
 	(void)ev; owner_reads++;
 #if BATCH_KIND == 0
 	if (pending_reply) { cJSON *m = pending_reply; pending_reply = 0; dispatch(&O, m); }
-#elif BATCH_KIND == 1
+#else
+	/* the connection's own readiness registration goes away with it: before the peer bookkeeping (the websocket close path)
+	   or after it (OWN_EVENT 1 / 2; 0: the transport keeps it, as a listener-less test transport would) */
+#if OWN_EVENT == 1
+	EPOLL.loop.remove(EPOLL.loop.this_ptr, ev);
+#endif
+#if BATCH_KIND == 1
 	free_peer_resources(&O); dead_peer = &O;          /* what the close path of every transport ends in */
 #else
 	free_peer_resources(&A); dead_peer = &A;          /* (the event belongs to the caller's connection in this variant) */
+#endif
+#if OWN_EVENT == 2
+	EPOLL.loop.remove(EPOLL.loop.this_ptr, ev);
+#endif
+#if OWN_EVENT
+	return EL_EVENT_REMOVED;
+#endif
 #endif
 	return EL_CONTINUE_LOOP;
 }
@@ -73,6 +89,7 @@ void harness_batch(void)
 	mkpeer(&O, true); mkpeer(&A, true);
 	O.loop = &EPOLL.loop; A.loop = &EPOLL.loop;
 	OWNER_EV.sock = 9; OWNER_EV.read_function = owner_read; OWNER_EV.write_function = owner_write; OWNER_EV.loop = &EPOLL.loop;
+	__CPROVER_assume(eventloop_epoll_add(&EPOLL, &OWNER_EV) == EL_CONTINUE_LOOP);      /* registration 0: the connection */
 	int v = (int)nd_range(0, 999);
 	scn_build_begin();
 	cJSON *add = mkreq("add", 1, path_params("s", 1));
@@ -81,8 +98,8 @@ void harness_batch(void)
 	__CPROVER_assume(dispatch(&O, add) == 0);
 	reset_log();
 	__CPROVER_assume(dispatch(&A, set) == 0);
-	__CPROVER_assume(nlog == 1 && LOG[0].kind == K_ROUTED && nreg == 1 && REG[0].live);
-	void *timer_ev = REG[0].ptr;                       /* what the kernel reports for the request's timerfd */
+	__CPROVER_assume(nlog == 1 && LOG[0].kind == K_ROUTED && nreg == 2 && REG[1].live);
+	void *timer_ev = REG[1].ptr;                       /* what the kernel reports for the request's timerfd */
 	char routed_id[20]; cpystr(routed_id, sizeof(routed_id), LOG[0].id_str); (void)routed_id;
 	scn_build_begin();
 	cJSON *reply = cJSON_CreateObject();
@@ -123,6 +140,6 @@ void harness_batch(void)
 	  dead_peer = &A; int lr = dispatch(&O, late); CHECK(lr >= 0, "C05.reply_for_departed_caller_is_harmless"); }
 #endif
 	CHECK(owner_reads == 1, "C14.owner_event_processed_once");
-	CHECK(fds_open == 0 && !REG[0].live, "C07.timer_descriptor_closed_and_deregistered");
+	CHECK(fds_open == 0 && !REG[1].live, "C07.timer_descriptor_closed_and_deregistered");
 	WITNESS_END();
 }
